@@ -54,6 +54,9 @@ pub(crate) struct FilesEntryIterator {
 
     /// Options to configure behavior when reading from table files.
     read_options: ReadOptions,
+
+    /// The error that ended the iteration during a `next` or `prev` call, if there was one.
+    iteration_error: Option<RainDBError>,
 }
 
 /// Crate-only methods
@@ -70,6 +73,7 @@ impl FilesEntryIterator {
             current_table_iter: None,
             table_cache,
             read_options,
+            iteration_error: None,
         }
     }
 }
@@ -203,11 +207,20 @@ impl RainDbIterator for FilesEntryIterator {
         }
 
         if self.current_table_iter.as_mut().unwrap().next().is_none() {
+            if let Some(error) = self.current_table_iter.as_mut().unwrap().take_error() {
+                // The table iterator did not run off its end, it failed
+                self.current_table_iter = None;
+                self.iteration_error = Some(error);
+                return None;
+            }
+
             if let Err(error) = self.skip_empty_table_files_forward() {
                 log::error!(
                     "There was an error skipping forward. Original error: {}",
                     error
                 );
+                self.current_table_iter = None;
+                self.iteration_error = Some(error);
                 return None;
             }
         }
@@ -225,11 +238,20 @@ impl RainDbIterator for FilesEntryIterator {
         }
 
         if self.current_table_iter.as_mut().unwrap().prev().is_none() {
+            if let Some(error) = self.current_table_iter.as_mut().unwrap().take_error() {
+                // The table iterator did not run off its front, it failed
+                self.current_table_iter = None;
+                self.iteration_error = Some(error);
+                return None;
+            }
+
             if let Err(error) = self.skip_empty_table_files_backward() {
                 log::error!(
                     "There was an error skipping backward. Original error: {}",
                     error
                 );
+                self.current_table_iter = None;
+                self.iteration_error = Some(error);
                 return None;
             }
         }
@@ -247,6 +269,10 @@ impl RainDbIterator for FilesEntryIterator {
         }
 
         self.current_table_iter.as_ref().unwrap().current()
+    }
+
+    fn take_error(&mut self) -> Option<Self::Error> {
+        self.iteration_error.take()
     }
 }
 
@@ -407,6 +433,9 @@ impl MergingIterator {
         if let Some(current_iter_index) = self.current_iterator_index {
             let current_iter = &mut self.iterators[current_iter_index];
             current_iter.next();
+            if let Some(error) = current_iter.take_error() {
+                self.save_error(current_iter_index, error);
+            }
         }
     }
 
@@ -415,6 +444,9 @@ impl MergingIterator {
         if let Some(current_iter_index) = self.current_iterator_index {
             let current_iter = &mut self.iterators[current_iter_index];
             current_iter.prev();
+            if let Some(error) = current_iter.take_error() {
+                self.save_error(current_iter_index, error);
+            }
         }
     }
 }
@@ -503,6 +535,9 @@ impl RainDbIterator for MergingIterator {
 
                 if iter.is_valid() && (*iter.current().unwrap().0) == current_key {
                     iter.next();
+                    if let Some(error) = iter.take_error() {
+                        maybe_error = Some(error);
+                    }
                 }
 
                 if let Some(error) = maybe_error {
@@ -546,6 +581,9 @@ impl RainDbIterator for MergingIterator {
                     // The child iterator's first entry is >= the current key. Step back one to be
                     // less than the current key
                     iter.prev();
+                    if let Some(error) = iter.take_error() {
+                        maybe_error = Some(error);
+                    }
                 } else {
                     // The child iterator has no entries with keys >= the current key. Position at
                     // the last entry.
@@ -575,6 +613,10 @@ impl RainDbIterator for MergingIterator {
         }
 
         None
+    }
+
+    fn take_error(&mut self) -> Option<Self::Error> {
+        self.get_error()
     }
 }
 
